@@ -41,6 +41,9 @@ func main() {
 		return
 	}
 	c := hx.ParseFlags()
+	// the FromJSONSchema stream is part of allSchemas(): the fatal-probe children must rebuild the same list
+	os.Setenv("C04_SEED", strconv.FormatUint(c.Seed, 10))
+	os.Setenv("C04_TIER", c.Tier)
 	if err := run(c); err != nil {
 		fmt.Fprintln(os.Stderr, "harness error:", err)
 		os.Exit(3)
@@ -620,5 +623,7 @@ func run(c hx.Config) error {
 		return err
 	}
 	return o.Close(map[string]any{"cfg": cfg.Tok(), "ctor_built": ctorRep.built, "ctor_uncallable": ctorRep.uncallable,
-		"ctor_non_schema": ctorRep.nonSchema, "generic_uncovered": ctorRep.generic, "generic_listed": genericCtors, "ctor_listed": len(genCtors)})
+		"ctor_non_schema": ctorRep.nonSchema, "generic_uncovered": ctorRep.generic, "generic_listed": genericCtors, "ctor_listed": len(genCtors),
+		"fjs_conv": map[string]any{"documents": fjsStats.docs, "compile_errors": fjsStats.compileErr, "conversion_errors": fjsStats.convErr,
+			"conversion_panics": fjsStats.convPanic, "schemas": fjsStats.built, "panic_samples": fjsConvPanics}})
 }
